@@ -18,7 +18,7 @@ for p in props:
             'evidence_file': f'/verif/evidence/{i}.json',
             'replay_cmd_template': f'./check {i} --replay {{path}}',
             'engine': 'govc',
-            'level_claimed': {'category': cfg[i].get('level', 'proof'), 'text': m.get('level_text', ''), 'design_ref': m.get('design_ref', 'DESIGN.md §11 ' + i)},
+            'level_claimed': {'category': cfg[i].get('level', 'proof'), 'text': m.get('level_text', ''), 'design_ref': m.get('design_ref', 'DESIGN.md §11 ' + i + ' (plan) and §17 (as built)')},
             'level_note': m.get('level_note', ''),
             'technique': m.get('technique', 'contract-based deductive verification: weakest-precondition VCs over go/ssa, discharged by z3/cvc5'),
         })
@@ -29,7 +29,7 @@ man = {
     'setup_cmd': 'cd /verif/govc && GOFLAGS=-mod=vendor GOPROXY=off GOSUMDB=off GOTOOLCHAIN=local go build -o /verif/bin/govc .',
     'hooks': {
         'guard': 'verif',
-        'enable': 'go build tag: -tags verif (comment-only contract files verif_contracts.go; read by govc, never compiled into the library)',
+        'enable': 'go build tag: -tags verif. Files behind it: verif_contracts.go and cmd/opgen/verif_contracts.go (contract comments only, read by govc) and verif_hooks.go (proof-carrier code: lemma functions whose loop invariants carry inductions, round-trip clients; compiled only under the tag, never part of the library build)',
         'baseline_off_cmd': "cd /repo && GOFLAGS=-mod=mod GOPROXY=off GOSUMDB=off go test -json -vet=off -count=1 -timeout 25m ./...",
         'source_commits': hook_commits,
         'add_only': True,
